@@ -35,6 +35,10 @@ def cmp_op(op):
     def f(eng, st, fr, args, fn, site):
         a = deref(eng, st, args[0])
         b = deref(eng, st, args[1])
+        # a private newtype around one value (`Generation(u16)`) compares like the value it wraps
+        while a[0] == 'agg' and b[0] == 'agg' and a[1] == b[1] and a[2] == b[2] and a[2] is not None and len(a[3]) == 1 and len(b[3]) == 1 \
+                and a[1].startswith(('clock_bound', 'clockbound')):
+            a, b = a[3][0], b[3][0]
         if is_int_const(a) and is_int_const(b):
             x, y = a[1], b[1]
             r = {'lt': x < y, 'le': x <= y, 'gt': x > y, 'ge': x >= y, 'eq': x == y, 'ne': x != y}[op]
@@ -59,6 +63,10 @@ def enum_eq(eng, st, fr, args, fn, site):
     r = cmp_op('eq')(eng, st, fr, args, fn, site)
     if r[0] == 'c' or (r[0] == 't' and r[1] in ('Eq', 'Ne')):
         return r
+    if r[0] == 't' and r[1] == 'eq' and not (r[2][0][0] == 'agg' or r[2][1][0] == 'agg'):
+        a0, b0 = deref(eng, st, args[0]), deref(eng, st, args[1])
+        if a0[0] == 'agg' and b0[0] == 'agg' and a0 != r[2][0]:
+            return r            # newtypes unwrapped down to plain values
     return None
 
 
